@@ -361,6 +361,57 @@ func runC19(c *explore.Ctx) {
 	}
 	// comments are kept in the tree (Comment fields): a comment in front of any token must not
 	// change what the document decodes to
+	// decoding is a function of the bytes: the thousandth decode in a process returns what the first returned
+	s = c.Sub("repeated-decodes", "a fragments-only document, a document with one small operation and many fragments, and a bare selection set (through ast.UnmarshalSelectionSet) decoded 1000 times in one process",
+		"every decode succeeds and has the projection of the first", "every case")
+	if s != nil && c.Shard == 0 {
+		t0 := time.Now()
+		frags := ""
+		for i := 0; i < 12; i++ {
+			frags += fmt.Sprintf(" fragment F%d on T { a b { c ... on U { d } ...F%d } e @d(x: %d) }", i, (i+1)%12, i)
+		}
+		for _, text := range []string{frags, "{ x }" + frags, "query Q { a { b } ...F0 }" + frags} {
+			doc, perr := parser.ParseQuery(&ast.Source{Input: text})
+			if perr != nil {
+				panic("C19 repeated-decodes: " + perr.Error())
+			}
+			want := projExec(doc)
+			b, _ := json.Marshal(doc)
+			for round := 0; round < 1000; round++ {
+				s.Executions++
+				s.Transitions++
+				var back ast.QueryDocument
+				if err := json.Unmarshal(b, &back); err != nil || projExec(&back) != want {
+					obs := "differs"
+					if err != nil {
+						obs = err.Error()
+					}
+					c.Report(s, explore.Violation{Key: "json/repeated-decode document", Input: explore.J(map[string]any{"doc": text, "round": round}), Rendered: text, Detail: fmt.Sprintf("decode number %d of the same bytes in this process fails or differs from the first: %s", round+1, obs)})
+					break
+				}
+			}
+			s.States++
+			s.Validated++
+			// the selection set of the first fragment on its own
+			if len(doc.Fragments) > 0 {
+				sb, _ := json.Marshal(doc.Fragments[0].SelectionSet)
+				if first, err := ast.UnmarshalSelectionSet(sb); err == nil {
+					fb, _ := json.Marshal(first)
+					for round := 0; round < 1000; round++ {
+						s.Executions++
+						again, err := ast.UnmarshalSelectionSet(sb)
+						ab, _ := json.Marshal(again)
+						if err != nil || string(ab) != string(fb) {
+							c.Report(s, explore.Violation{Key: "json/repeated-decode selection-set", Input: explore.J(map[string]any{"doc": text, "round": round}), Rendered: string(sb), Detail: fmt.Sprintf("UnmarshalSelectionSet call number %d on the same bytes fails or differs from the first: %v", round+1, err)})
+							break
+						}
+					}
+				}
+			}
+		}
+		s.Outcome("stable")
+		s.WallS = time.Since(t0).Seconds()
+	}
 	s = c.Sub("comments", fmt.Sprintf("the %d profile documents and the %d decorated selections (alone and after a plain field) with a comment at every gap, one gap at a time and at every gap at once", len(gen.ExecProfiles), len(c19Items)),
 		"as above", "every rendering")
 	if s != nil {
